@@ -88,6 +88,7 @@ fn main() {
         "agree" => drivers::agree::run(&mut ctx),
         "harden" => drivers::harden::run(&mut ctx),
         "ros2" => drivers::ros2::run(&mut ctx),
+        "ros2sys" => drivers::ros2sys::run(&mut ctx),
         "demand" => drivers::cost::run_demand(&mut ctx),
         d => {
             eprintln!("unknown driver {}", d);
